@@ -20,6 +20,7 @@ EXPLANATION = (
     "body. OBS-6: every metric family is written by exactly one format_metric call outside any loop (HELP/TYPE/"
     "UNIT once per family)."
     " OBS-9: a label's value is read from a field chain that shares a distinguishing word with the label name (parent_* is not filled from grandmaster_*)."
+    " OBS-10: in the observer's accept loop the state snapshot is taken after accept().await."
 )
 NOT_DECIDED = "JSON value round trip through serde_json; label escaping; numeric formatting of Display"
 
